@@ -636,4 +636,60 @@ theorem patchDoH_failure {o : HOpObj} {h : Heap} {root : Addr} {rank : Addr → 
                 rw [doTestH_heap]; exact ⟨le_refl _, fun _ => rfl⟩
               · rw [if_neg h6]; exact ⟨le_refl _, fun _ => rfl⟩
 
+/-! ## 6. pipeline.PatchOp -/
+
+/-- a successful PatchOp add / replace with a value source: Clone of the source node (the op's own
+    node, or the node looked up via valueFrom), then ONE write of the (old) parent cell of `path`
+    that attaches the clone root -/
+theorem patchOp_attach_shape {op : String} {frm : Option Path} {path : Path} {src : ValueSrc}
+    {h h' : Heap} {root n : Addr} (hop : op = "add" ∨ op = "replace") (hcl : h.Closed)
+    (hroot : root < h.size) (hsrc : srcNode h root src = some n)
+    (he : patchOpDoH op frm (some path) src h root = (h', .ok ())) :
+    ∃ h1 c par cell', cloneF h.size h n = some (h1, c) ∧ evalH h root (parent path) = some par ∧
+      par < h.size ∧ h' = h1.write par cell' ∧ stepH h' par (lastSegment path) = some c := by
+  unfold patchOpDoH at he
+  simp only [hsrc] at he
+  cases hc : cloneF h.size h n with
+  | none => simp [hc] at he
+  | some q =>
+    obtain ⟨h1, c⟩ := q
+    simp only [hc] at he
+    have hl := (cloneF_spec h.size h n h1 c hc).1
+    unfold patchDoH at he
+    rcases hop with rfl | rfl
+    · simp only [if_true] at he
+      rcases doAddH_cases (some c) path h1 root with h2 | ⟨v, par, cell', hv, hp, h2, hcell⟩
+      · rw [h2] at he; cases he
+      · rw [h2] at he
+        cases hv
+        simp only [Prod.mk.injEq, and_true] at he
+        rw [evalH_of_le hl hcl _ root hroot] at hp
+        refine ⟨h1, c, par, cell', rfl, hp, evalH_lt hcl hroot hp, he.symm, ?_⟩
+        rw [← he]; exact stepH_write_self_add hcell
+    · have e1 : ("replace" = "add") = False := by decide
+      have e2 : ("replace" = "remove") = False := by decide
+      simp only [e1, e2, if_false, if_true] at he
+      rcases doReplaceH_cases (some c) path h1 root with h2 | h2 | ⟨v, m, par, cell', hv, _, hp, h2, hcell⟩
+      · rw [h2] at he; cases he
+      · rw [h2] at he; cases he
+      · rw [h2] at he
+        cases hv
+        simp only [Prod.mk.injEq, and_true] at he
+        rw [evalH_of_le hl hcl _ root hroot] at hp
+        refine ⟨h1, c, par, cell', rfl, hp, evalH_lt hcl hroot hp, he.symm, ?_⟩
+        rw [← he]; exact stepH_write_self_repl hcell
+
+/-- a write at a cell the root does not reach leaves what it reaches in range -/
+theorem reach_old_of_write {h h1 : Heap} (hl : h ≤ h1) (hcl : h.Closed) {par x : Addr} {cell' : Cell}
+    (hx : x < h.size) (hnr : ¬ Reach h x par) {b : Addr}
+    (hb : Reach (h1.write par cell') x b) : Reach h x b ∧ b < h.size := by
+  have key : ∀ y, Reach (h1.write par cell') x y → Reach h x y ∧ y < h.size := by
+    intro y hy
+    refine Reach.closed_set (fun y => Reach h x y ∧ y < h.size) ?_ hy ⟨.refl _, hx⟩
+    intro a c ⟨ha, halt⟩ hg k hk
+    have hap : a ≠ par := fun e => hnr (e ▸ ha)
+    rw [get?_write_ne h1 cell' hap, get?_eq_of_le hl halt] at hg
+    exact ⟨ha.trans (Reach.child hg hk), hcl a c hg k hk⟩
+  exact key b hb
+
 end Ytk.Heap
